@@ -1433,3 +1433,121 @@ package bpmn
 //@     invariant count(Spawn, code("(*flow).Start$1")) == old(count(Spawn, code("(*flow).Start$1"))) + rk1 &&
 //@               count(Spawn, code("(*harness).run")) == old(count(Spawn, code("(*harness).run"))) + 1 &&
 //@               count(Send, nextHarnessActionMessage) == old(count(Send, nextHarnessActionMessage)) && node.flows == old(node.flows)
+
+// ---------------------------------------------------------------------------------------------------------------
+// What the inclusive join's count means (C05): with pairwise different arrived identifiers, the number of equal
+// (arrived, awaited) pairs equals the number of awaited identifiers exactly when every awaited identifier is among
+// the arrived ones.  (A: arrived, W: awaited; rowCount / pairCount as in trySync's contract.)
+
+//@ lemma rowNonNeg(W (Array Int Iface), lo int, n int, x Iface)
+//@   prop C05
+//@   induction on n
+//@   pattern rowCount(W, lo, n, x)
+//@   ensures 0 <= rowCount(W, lo, n, x) && rowCount(W, lo, n, x) <= n
+
+//@ lemma rowPositive(W (Array Int Iface), lo int, n int, x Iface)
+//@   prop C05
+//@   induction on n
+//@   pattern rowCount(W, lo, n, x)
+//@   requires rowCount(W, lo, n, x) >= 1
+//@   ensures exists i int :: 0 <= i && i < n && W[lo + i] == x
+
+//@ lemma rowExists(W (Array Int Iface), lo int, n int, x Iface, i int)
+//@   prop C05
+//@   use lemma rowNonNeg
+//@   induction on n
+//@   requires 0 <= i && i < n && W[lo + i] == x
+//@   ensures rowCount(W, lo, n, x) >= 1
+
+//@ lemma rowAtMostOne(A (Array Int Iface), lo int, n int, x Iface)
+//@   prop C05
+//@   use lemma rowPositive with W = A; lo = lo; n = n - 1; x = x
+//@   induction on n
+//@   pattern rowCount(A, lo, n, x)
+//@   requires forall p int, q int :: 0 <= p && p < q && q < n ==> A[lo + p] != A[lo + q]
+//@   ensures rowCount(A, lo, n, x) <= 1
+
+// Summing over the other index first gives the same number.
+//@ lemma pairZero(W (Array Int Iface), wlo int, nw int, A (Array Int Iface), alo int)
+//@   prop C05
+//@   induction on nw
+//@   ensures pairCount(W, wlo, nw, A, alo, 0) == 0
+
+//@ lemma pairStepInner(W (Array Int Iface), wlo int, nw int, A (Array Int Iface), alo int, na int)
+//@   prop C05
+//@   induction on nw
+//@   requires na > 0
+//@   ensures pairCount(W, wlo, nw, A, alo, na) == pairCount(W, wlo, nw, A, alo, na - 1) + rowCount(W, wlo, nw, A[alo + na - 1])
+
+//@ lemma pairSwap(A (Array Int Iface), alo int, na int, W (Array Int Iface), wlo int, nw int)
+//@   prop C05
+//@   use lemma pairZero with W = W; wlo = wlo; nw = nw; A = A; alo = alo
+//@   use lemma pairStepInner with W = W; wlo = wlo; nw = nw; A = A; alo = alo; na = na
+//@   induction on na
+//@   requires nw >= 0
+//@   ensures pairCount(A, alo, na, W, wlo, nw) == pairCount(W, wlo, nw, A, alo, na)
+
+// A sum of nw numbers that are each 0 or 1 is nw exactly when each of them is 1.
+//@ lemma pairAtMost(W (Array Int Iface), wlo int, nw int, A (Array Int Iface), alo int, na int)
+//@   prop C05
+//@   use lemma rowNonNeg with W = A; lo = alo; n = na; x = W[wlo + nw - 1]
+//@   use lemma rowAtMostOne with A = A; lo = alo; n = na; x = W[wlo + nw - 1]
+//@   induction on nw
+//@   requires forall p int, q int :: 0 <= p && p < q && q < na ==> A[alo + p] != A[alo + q]
+//@   ensures 0 <= pairCount(W, wlo, nw, A, alo, na) && pairCount(W, wlo, nw, A, alo, na) <= nw
+
+//@ lemma pairFullMeansOne(W (Array Int Iface), wlo int, nw int, A (Array Int Iface), alo int, na int, j int)
+//@   prop C05
+//@   use lemma rowNonNeg with W = A; lo = alo; n = na; x = W[wlo + nw - 1]
+//@   use lemma rowAtMostOne with A = A; lo = alo; n = na; x = W[wlo + nw - 1]
+//@   use lemma pairAtMost with W = W; wlo = wlo; nw = nw - 1; A = A; alo = alo; na = na
+//@   induction on nw
+//@   requires forall p int, q int :: 0 <= p && p < q && q < na ==> A[alo + p] != A[alo + q]
+//@   requires pairCount(W, wlo, nw, A, alo, na) == nw && 0 <= j && j < nw
+//@   ensures rowCount(A, alo, na, W[wlo + j]) == 1
+
+//@ lemma pairAllOnesIsFull(W (Array Int Iface), wlo int, nw int, A (Array Int Iface), alo int, na int)
+//@   prop C05
+//@   induction on nw
+//@   requires forall j int :: 0 <= j && j < nw ==> rowCount(A, alo, na, W[wlo + j]) == 1
+//@   ensures pairCount(W, wlo, nw, A, alo, na) == nw
+
+// The join fires (count == number awaited) exactly when every awaited token has arrived.
+//@ lemma joinFiresOnlyWhenAllArrived(A (Array Int Iface), alo int, na int, W (Array Int Iface), wlo int, nw int, j int)
+//@   prop C05
+//@   use lemma pairSwap with A = A; alo = alo; na = na; W = W; wlo = wlo; nw = nw
+//@   use lemma pairFullMeansOne with W = W; wlo = wlo; nw = nw; A = A; alo = alo; na = na; j = j
+//@   use lemma rowPositive with W = A; lo = alo; n = na; x = W[wlo + j]
+//@   requires na >= 0 && nw >= 0 && 0 <= j && j < nw
+//@   requires [arrived-identifiers-are-pairwise-different] forall p int, q int :: 0 <= p && p < q && q < na ==> A[alo + p] != A[alo + q]
+//@   requires pairCount(A, alo, na, W, wlo, nw) == nw
+//@   ensures [every-awaited-token-has-arrived] exists i int :: 0 <= i && i < na && A[alo + i] == W[wlo + j]
+
+//@ lemma pairPresentIsFull(W (Array Int Iface), wlo int, nw int, A (Array Int Iface), alo int, na int, pos (Array Int Int))
+//@   prop C05
+//@   use lemma rowExists with W = A; lo = alo; n = na; x = W[wlo + nw - 1]; i = pos[nw - 1]
+//@   use lemma rowAtMostOne with A = A; lo = alo; n = na; x = W[wlo + nw - 1]
+//@   induction on nw
+//@   requires forall p int, q int :: 0 <= p && p < q && q < na ==> A[alo + p] != A[alo + q]
+//@   requires forall j int :: 0 <= j && j < nw ==> 0 <= pos[j] && pos[j] < na && A[alo + pos[j]] == W[wlo + j]
+//@   ensures pairCount(W, wlo, nw, A, alo, na) == nw
+
+// (pos[j] is where awaited token j sits among the arrived ones: "for all such position tables" is the same statement
+// as "if every awaited token is among the arrived ones")
+//@ lemma joinFiresWhenAllArrived(A (Array Int Iface), alo int, na int, W (Array Int Iface), wlo int, nw int, pos (Array Int Int))
+//@   prop C05
+//@   use lemma pairSwap with A = A; alo = alo; na = na; W = W; wlo = wlo; nw = nw
+//@   use lemma pairPresentIsFull with W = W; wlo = wlo; nw = nw; A = A; alo = alo; na = na; pos = pos
+//@   requires na >= 0 && nw >= 0
+//@   requires [arrived-identifiers-are-pairwise-different] forall p int, q int :: 0 <= p && p < q && q < na ==> A[alo + p] != A[alo + q]
+//@   requires [every-awaited-token-has-arrived] forall j int :: 0 <= j && j < nw ==> 0 <= pos[j] && pos[j] < na && A[alo + pos[j]] == W[wlo + j]
+//@   ensures [the-count-reaches-the-number-awaited] pairCount(A, alo, na, W, wlo, nw) == nw
+
+// (rowExists with the witness hidden: present somewhere means counted at least once)
+//@ lemma rowAtLeastOneIfPresent(A (Array Int Iface), lo int, n int, x Iface)
+//@   prop C05
+//@   use lemma rowNonNeg with W = A; lo = lo; n = n - 1; x = x
+//@   induction on n
+//@   pattern rowCount(A, lo, n, x)
+//@   requires exists i int :: 0 <= i && i < n && A[lo + i] == x
+//@   ensures rowCount(A, lo, n, x) >= 1
